@@ -417,6 +417,7 @@ def make_builtins(I):
         reg(name, fn)
     reg('setattr', _setattr, pure=False)
     reg('delattr', _delattr, pure=False)
+    reg('slice', lambda *a: slice(*a))
     reg('bytes', lambda *a: bytes(*a))
     reg('object', lambda: None)
     reg('NoneType', lambda: None)
@@ -615,6 +616,8 @@ def value_getattr(I, obj, name):
             return 'float'
         if obj.name == 'str' and hasattr(str, name):
             return Builtin('str.' + name, lambda s, *a: getattr(s, name)(*a))
+    if isinstance(obj, slice) and name in ('start', 'stop', 'step'):
+        return getattr(obj, name)
     if obj is None:
         I.raise_('AttributeError', f"'NoneType' object has no attribute '{name}'")
     if isinstance(obj, (int, str, Fraction, bool, list, tuple, dict, set, frozenset, FStr)):
